@@ -20,7 +20,7 @@ from corr.numlib import CULTURES
 
 PROP = 'C03'
 LEVEL = 'proof'
-PROPS_MODULES = ['RTV.Props.C03', 'RTV.Props.C03Frac']
+PROPS_MODULES = ['RTV.Props.C03', 'RTV.Props.C03Frac', 'RTV.Props.C03Extract', 'RTV.Props.C03ExtractBounded']
 GEN = ['nummaps', 'chartables', 'numfrac', 'numregex', 'regexes']
 REQUIRED_THEOREMS = ['digital_exact', 'digital_exact_neg', 'format_canonical', 'number_literal', 'percent_literal',
                      'digital_round16', 'separators_distinct', 'comma_dot_cultures', 'progressive_rounding_witness',
@@ -31,7 +31,12 @@ REQUIRED_THEOREMS = ['digital_exact', 'digital_exact_neg', 'format_canonical', '
                      'decimal_mark_foreign', 'zero_fraction_witness', 'constants_regenerated',
                      # RTV.Props.C03Frac: suffix multipliers, point, fractions, powers
                      'suffix_value_rounded', 'suffix_exact_literal', 'point_digits_exact', 'fraction_notation_value',
-                     'power_e_exact', 'power_caret_exact', 'power_x10_exact', 'x10_caret_witness', 'mixed_roundth_witness', 'numfrac_constants']
+                     'power_e_exact', 'power_caret_exact', 'power_x10_exact', 'x10_caret_witness', 'mixed_roundth_witness', 'numfrac_constants',
+                     # RTV.Props.C03Extract(Bounded): the extraction front end for digit literals
+                     'gen_integer_definitions', 'gen_double_definitions', 'families_ok', 'tables_ok',
+                     'grouped_literal_extracted', 'grouped_decimal_literal_extracted', 'grouped_literal_sweep',
+                     'de_plain_decimal_split_witness', 'nl_plain_decimal_split_witness', 'de_negative_grouped_witness',
+                     'esmx_two_groups_split_witness', 'plain_bounded', 'decimal_bounded', 'decimal_bounded_signed']
 RULE = ('unit: decimal ops on boundary coefficients (10^k, 10^k±1, ...5 ties) + seeded operands, p in {15, 28}; '
         '_get_digital_value / format on every literal shape (plain, grouped, decimal, grouped+decimal, ± sign) x '
         'magnitudes 0..10^15 (10^k, 10^k±1, 15- and 16-digit, 10^-6, 10^-7) x 10 configurations + seeded junk '
